@@ -139,24 +139,29 @@ Definition check_constraints (c : cell) (a : app) (labels : list Z) (traits : Z)
 Definition check_lifetime (c : cell) (a : app) (lease : Z) (s : server) : bool :=
   Z.eqb lease 0 || Z.ltb (c_now c + lease) (s_valid_until s).
 
-(** ** Server.put (lease given explicitly so that restore can pass 0) *)
+(** ** Server.put (lease given explicitly so that restore can pass 0).
+    The server/app part of the effect is the atomic primitive [prim_put]; everything after it only touches buckets. *)
+Definition prim_put (c : cell) (sname aname : Z) (a : app) (lease : Z) : cell :=
+  c_upd_app aname (fun x => (match a_expiry x with
+                             | None => x <| a_expiry := Some (c_now c + lease) |>
+                             | Some _ => x
+                             end) <| a_server := Some sname |>)
+    (c_upd_srv sname (fun x => x <| s_free := vsub (s_free x) (a_demand a) |>
+                                 <| s_apps ::= (fun l => l ++ [aname]) |>
+                                 <| s_counters ::= cadd (a_aff a) 1 |>) c).
+
+Definition put_guard (c : cell) (s : server) (a : app) (lease : Z) : bool :=
+  check_lifetime c a lease s
+  && check_constraints c a [s_label s] (s_traits s) (s_counters s) LEVEL_SERVER (s_free s).
+
 Definition srv_put_lease (c : cell) (sname aname : Z) (lease : Z) : option cell :=
   match get_srv sname (c_servers c), get_app aname (c_apps c) with
   | Some s, Some a =>
-      if check_lifetime c a lease s
-         && check_constraints c a [s_label s] (s_traits s) (s_counters s) LEVEL_SERVER (s_free s)
+      if put_guard c s a lease
       then
-        let prev := s_free s in
-        let c1 := c_upd_srv sname (fun x => x <| s_free := vsub (s_free x) (a_demand a) |>
-                                              <| s_apps ::= (fun l => l ++ [aname]) |>
-                                              <| s_counters ::= cadd (a_aff a) 1 |>) c in
+        let c1 := prim_put c sname aname a lease in
         let c2 := bump_from c1 (s_parent s) [(a_aff a, 1)] 1 in
-        let c3 := c_upd_app aname (fun x => x <| a_server := Some sname |>) c2 in
-        let c4 := adjust_down_from c3 (s_parent s) (Some prev) in
-        Some (c_upd_app aname (fun x => match a_expiry x with
-                                        | None => x <| a_expiry := Some (c_now c + lease) |>
-                                        | Some _ => x
-                                        end) c4)
+        Some (adjust_down_from c2 (s_parent s) (Some (s_free s)))
       else None
   | _, _ => None
   end.
@@ -188,17 +193,19 @@ Definition srv_renew (c : cell) (sname aname : Z) : cell * bool :=
   | _, _ => (c, false)
   end.
 
-(** Server.remove *)
+(** Server.remove: atomic server/app primitive, then bucket-only propagation *)
+Definition prim_remove (c : cell) (sname aname : Z) (a : app) : cell :=
+  c_upd_app aname (fun x => x <| a_server := None |> <| a_evicted := true |>
+                              <| a_unschedule := false |> <| a_expiry := None |>)
+    (c_upd_srv sname (fun x => x <| s_free := vadd (s_free x) (a_demand a) |> <| s_apps ::= zremove aname |>
+                                 <| s_counters ::= cadd (a_aff a) (-1) |>) c).
+
 Definition srv_remove (c : cell) (sname aname : Z) : cell :=
   match get_srv sname (c_servers c), get_app aname (c_apps c) with
   | Some s, Some a =>
-      let nf := vadd (s_free s) (a_demand a) in
-      let c1 := c_upd_srv sname (fun x => x <| s_free := nf |> <| s_apps ::= zremove aname |>
-                                            <| s_counters ::= cadd (a_aff a) (-1) |>) c in
-      let c2 := c_upd_app aname (fun x => x <| a_server := None |> <| a_evicted := true |>
-                                            <| a_unschedule := false |> <| a_expiry := None |>) c1 in
-      let c3 := bump_from c2 (s_parent s) [(a_aff a, 1)] (-1) in
-      adjust_up_from c3 (s_parent s) nf
+      let c1 := prim_remove c sname aname a in
+      let c2 := bump_from c1 (s_parent s) [(a_aff a, 1)] (-1) in
+      adjust_up_from c2 (s_parent s) (vadd (s_free s) (a_demand a))
   | _, _ => c
   end.
 
